@@ -820,7 +820,8 @@ def classify_case(case, sig):
 def evaluate(ctx, cases, shrink=True):
     runs = []
     for case in cases:
-        recs, final = run_impl(case)
+        with ctx.guard(case, what='HTTP component (read events of this case)'):
+            recs, final = run_impl(case)
         k = 0
         for st, r in zip(case['steps'], recs):
             if st[0] in ('r', 'rd'):
